@@ -1817,10 +1817,18 @@ func (t *Topic) thisUserSub(sess *Session, pkt *ClientComMessage, asUid types.Ui
 			userData.modeWant = modeWant
 		}
 
+		// The subscription of a channel reader is stored under the chnXXX name and its mode stays
+		// within the reader's range, as it does when the reader's subscription is created.
+		subTopic := t.name
+		if userData.isChan {
+			subTopic = types.GrpToChn(t.name)
+			userData.modeWant = (userData.modeWant & types.ModeCChnReader) | types.ModeRead | types.ModeJoin
+		}
+
 		// Create a subscription object to notify plugins.
 		sub := types.Subscription{
 			User:  asUid.String(),
-			Topic: t.name,
+			Topic: subTopic,
 		}
 
 		// Save changes to DB
@@ -1844,7 +1852,7 @@ func (t *Topic) thisUserSub(sess *Session, pkt *ClientComMessage, asUid types.Ui
 		}
 
 		if len(update) > 0 {
-			if err := store.Subs.Update(t.name, asUid, update); err != nil {
+			if err := store.Subs.Update(subTopic, asUid, update); err != nil {
 				sess.queueOut(ErrUnknownReply(pkt, now))
 				return nil, err
 			}
